@@ -34,6 +34,8 @@ const (
 	optCtxHandlers                  // the context already carries handlers (callbacks.InitCallbacks), the SAME parent context for every call
 	optShared                       // option VALUES built once per object and handed to every call with this bit: the same Option structs, NodePaths, handler and option slices
 	optBadPath                      // one more lambda option, designated to a node that does not exist (inside the deepest nested graph where there is one): the call fails before anything runs
+	optCancel                       // the call runs under a context of its own that one of its nodes (object.cancelKey) cancels while it executes: the run finds its context cancelled at the top of the next iteration of its main loop — and no other call does
+	optSharedInput                  // the call's input is an object shared by every call with this bit (it carries no call tag): the same slice, with spare capacity, and the same message objects — a caller may hand one immutable input to any number of concurrent calls, the framework must never write into it
 )
 
 // spare copies a slice into one with spare capacity.
@@ -85,6 +87,10 @@ type object struct {
 	// collection: a workflow returns on the first failing node); objects that have some get a faulted
 	// and a healthy spec in every case, and the sequential fault scenario (main.go)
 	faultIn []int
+	// the node that cancels the context of a call made with optCancel (or with an input for which
+	// wantsCancel says so); "" = the object has no cancellation point
+	cancelKey   string
+	wantsCancel func(sp spec) bool
 }
 
 // lopt is the per-call option of harness lambdas: it carries the tag of the call that passed it.
